@@ -170,10 +170,13 @@ type (
 		not bool
 	}
 	sqlCall struct {
-		fn   string
-		args []sqlExpr
-		star bool
+		fn       string
+		args     []sqlExpr
+		star     bool
+		distinct bool // COUNT(DISTINCT e)
 	}
+	// [NOT] EXISTS (SELECT ... FROM t [alias] WHERE ...), correlated with the outer row
+	sqlExists struct{ st *sqlStmt }
 	sqlIn struct {
 		e    sqlExpr
 		list []sqlExpr
@@ -206,6 +209,7 @@ type sqlStmt struct {
 	joinOn    sqlExpr
 	joinLeft  bool
 	distinct  bool
+	groupBy   []sqlExpr
 }
 
 type sqlSet struct {
@@ -261,6 +265,10 @@ func (p *sqlParser) ident() string {
 
 func sqlParse(src string) *sqlStmt {
 	p := &sqlParser{toks: sqlLex(src), src: src, params: map[string]int{}}
+	return p.stmt()
+}
+
+func (p *sqlParser) stmt() *sqlStmt {
 	st := &sqlStmt{}
 	switch {
 	case p.kw("select"):
@@ -301,7 +309,7 @@ func sqlParse(src string) *sqlStmt {
 			p.want("on")
 			st.joinOn = p.expr()
 		}
-		for _, bad := range []string{"join", "inner", "left", "group", "union"} {
+		for _, bad := range []string{"join", "inner", "left", "union"} {
 			if p.isKw(bad) {
 				p.fail(bad)
 			}
@@ -373,6 +381,21 @@ func sqlParse(src string) *sqlStmt {
 	}
 	if p.kw("where") {
 		st.where = p.expr()
+	}
+	if p.kw("group") {
+		if st.kind != "select" {
+			p.fail("group by outside select")
+		}
+		p.want("by")
+		for {
+			st.groupBy = append(st.groupBy, p.expr())
+			if !p.op(",") {
+				break
+			}
+		}
+		if p.isKw("having") || p.isKw("order") {
+			p.fail("having / order by after group by")
+		}
 	}
 	if p.kw("order") {
 		p.want("by")
@@ -539,8 +562,33 @@ func (p *sqlParser) primary() sqlExpr {
 		if t.s == "null" {
 			return sqlLit{sqlVal{null: true}}
 		}
+		if t.s == "exists" && p.isOp("(") {
+			// sub-select over the tokens up to the matching parenthesis
+			p.next()
+			depth, start := 1, p.pos
+			for depth > 0 {
+				switch tk := p.next(); {
+				case tk.kind == "end":
+					p.fail("unterminated exists")
+				case tk.kind == "op" && tk.s == "(":
+					depth++
+				case tk.kind == "op" && tk.s == ")":
+					depth--
+				}
+			}
+			toks := append(append([]sqlTok(nil), p.toks[start:p.pos-1]...), sqlTok{kind: "end"})
+			sub := &sqlParser{toks: toks, src: p.src, params: p.params}
+			st := sub.stmt()
+			if st.kind != "select" || st.joinTable != "" || len(st.groupBy) > 0 || len(st.order) > 0 || st.limit != nil {
+				p.fail("exists sub-select shape")
+			}
+			return sqlExists{st}
+		}
 		if p.op("(") {
 			c := sqlCall{fn: t.s}
+			if p.kw("distinct") {
+				c.distinct = true
+			}
 			if p.op("*") {
 				c.star = true
 			} else if !p.isOp(")") {
@@ -918,7 +966,7 @@ func (w *Worker) sqlEval(e sqlExpr, env *sqlEnv) sqlVal {
 			}
 			return sqlVal{v: &StrV{B: append(append([]*term.Term(nil), ls.B...), rs.B...)}}
 		}
-	case sqlNot, sqlIsNull, sqlIn:
+	case sqlNot, sqlIsNull, sqlIn, sqlExists:
 		b := w.sqlTruth(e, env)
 		if b.null {
 			return sqlVal{null: true}
@@ -1062,6 +1110,39 @@ func (w *Worker) sqlTruth(e sqlExpr, env *sqlEnv) sqlBool {
 	case sqlIsNull:
 		v := w.sqlEval(e.e, env)
 		return sqlBool{t: tf.Bool(v.null != e.not)}
+	case sqlExists:
+		// correlated sub-select: the inner row shadows the outer one; both are
+		// reachable through their table name or alias
+		db := w.sqlState()
+		t2 := w.sqlTableOf(db, e.st.table)
+		inner := e.st.alias
+		if inner == "" {
+			inner = e.st.table
+		}
+		r := tf.False
+		for _, r2 := range t2.rows {
+			j := &sqlRow{cells: map[string]sqlVal{}, id: r2.id}
+			if env.row != nil {
+				for k, v := range env.row.cells {
+					j.cells[k] = v
+					if outer := env.alias; outer != "" && !strings.Contains(k, ".") {
+						j.cells[outer+"."+k] = v
+					}
+				}
+			}
+			for k, v := range r2.cells {
+				j.cells[k] = v
+				j.cells[inner+"."+k] = v
+			}
+			b := sqlBool{t: tf.True}
+			if e.st.where != nil {
+				b = w.sqlTruth(e.st.where, &sqlEnv{row: j, args: env.args, alias: inner})
+			}
+			if !b.null {
+				r = tf.Or(r, b.t)
+			}
+		}
+		return sqlBool{t: r}
 	case sqlIn:
 		v := w.sqlEval(e.e, env)
 		if v.null {
@@ -1214,7 +1295,46 @@ func (w *Worker) sqlDeleteRow(db *sqlDB, t *sqlTable, r *sqlRow) {
 }
 
 // sqlExec runs a statement; returns (result rows, affected, error value or nil).
+// sqlSplitUnionAll splits "select ... UNION ALL select ..." at parenthesis depth 0.
+func sqlSplitUnionAll(src string) []string {
+	var parts []string
+	depth, start := 0, 0
+	up := strings.ToUpper(src)
+	inStr := false
+	for i := 0; i < len(src); i++ {
+		switch c := src[i]; {
+		case c == '\'':
+			inStr = !inStr
+		case inStr:
+		case c == '(':
+			depth++
+		case c == ')':
+			depth--
+		case depth == 0 && strings.HasPrefix(up[i:], " UNION ALL "):
+			parts = append(parts, src[start:i])
+			start = i + len(" UNION ALL ")
+			i = start - 1
+		}
+	}
+	return append(parts, src[start:])
+}
+
 func (w *Worker) sqlExec(src string, args []sqlVal) ([][]sqlVal, int, Value) {
+	if parts := sqlSplitUnionAll(src); len(parts) > 1 {
+		// UNION ALL of parameterless selects: the concatenation of their rows
+		var all [][]sqlVal
+		for _, part := range parts {
+			if strings.Contains(part, "$") || strings.Contains(part, "?") {
+				panic(pathAbort{"unsupported", "sql: UNION ALL with parameters: " + src})
+			}
+			rows, _, err := w.sqlExec(part, args)
+			if err != nil {
+				return nil, 0, err
+			}
+			all = append(all, rows...)
+		}
+		return all, 0, nil
+	}
 	db := w.sqlState()
 	st, ok := w.sqlCache[src]
 	if !ok {
@@ -1304,18 +1424,121 @@ func (w *Worker) sqlExec(src string, args []sqlVal) ([][]sqlVal, int, Value) {
 				}
 			}
 			for _, c := range st.cols {
-				if call, ok := c.(sqlCall); ok && call.star {
+				if call, ok := c.(sqlCall); ok && call.star && call.fn == "*" {
 					panic(pathAbort{"unsupported", "sql: * in a join: " + src})
 				}
 			}
 		}
+		outerName := st.alias
+		if outerName == "" {
+			outerName = st.table
+		}
 		for _, r := range rows {
-			if w.sqlMatch(st.where, &sqlEnv{row: r, args: args}) {
+			if w.sqlMatch(st.where, &sqlEnv{row: r, args: args, alias: outerName}) {
 				sel = append(sel, r)
 			}
 		}
+		// sameVals: SQL grouping equality (NULLs group together), forking on symbolic values
+		sameVals := func(a, b []sqlVal) bool {
+			for i := range a {
+				if a[i].null || b[i].null {
+					if a[i].null != b[i].null {
+						return false
+					}
+					continue
+				}
+				if !w.Branch(w.sqlCmp("=", a[i], b[i]).t) {
+					return false
+				}
+			}
+			return true
+		}
+		if len(st.groupBy) > 0 {
+			// GROUP BY: groups in order of first appearance (SQLite emits them in key
+			// order; no consumer in scope depends on the order); the select list may
+			// hold COUNT(*), COUNT(DISTINCT e), MIN(e), MAX(e) and expressions, which are
+			// evaluated on the group's first row
+			type group struct {
+				key  []sqlVal
+				rows []*sqlRow
+			}
+			var groups []*group
+			for _, r := range sel {
+				var key []sqlVal
+				for _, g := range st.groupBy {
+					key = append(key, w.sqlEval(g, &sqlEnv{row: r, args: args, alias: outerName}))
+				}
+				var into *group
+				for _, g := range groups {
+					if sameVals(g.key, key) {
+						into = g
+						break
+					}
+				}
+				if into == nil {
+					into = &group{key: key}
+					groups = append(groups, into)
+				}
+				into.rows = append(into.rows, r)
+			}
+			var out [][]sqlVal
+			for _, g := range groups {
+				var row []sqlVal
+				for _, c := range st.cols {
+					call, isCall := c.(sqlCall)
+					switch {
+					case isCall && call.fn == "count" && call.star:
+						row = append(row, sqlVal{v: w.TF.Const(64, uint64(len(g.rows)))})
+					case isCall && call.fn == "count" && len(call.args) == 1:
+						var seen [][]sqlVal
+						for _, r := range g.rows {
+							v := w.sqlEval(call.args[0], &sqlEnv{row: r, args: args, alias: outerName})
+							if v.null {
+								continue
+							}
+							dup := false
+							if call.distinct {
+								for _, pv := range seen {
+									if sameVals(pv, []sqlVal{v}) {
+										dup = true
+										break
+									}
+								}
+							}
+							if !dup {
+								seen = append(seen, []sqlVal{v})
+							}
+						}
+						row = append(row, sqlVal{v: w.TF.Const(64, uint64(len(seen)))})
+					case isCall && (call.fn == "min" || call.fn == "max") && len(call.args) == 1:
+						best := sqlVal{null: true}
+						for _, r := range g.rows {
+							v := w.sqlEval(call.args[0], &sqlEnv{row: r, args: args, alias: outerName})
+							if v.null {
+								continue
+							}
+							op := "<"
+							if call.fn == "max" {
+								op = ">"
+							}
+							if best.null || w.Branch(w.sqlCmp(op, v, best).t) {
+								best = v
+							}
+						}
+						row = append(row, best)
+					default:
+						row = append(row, w.sqlEval(c, &sqlEnv{row: g.rows[0], args: args, alias: outerName}))
+					}
+				}
+				out = append(out, row)
+			}
+			return out, 0, nil
+		}
 		if len(st.cols) == 1 {
 			if c, ok := st.cols[0].(sqlCall); ok && c.fn == "count" {
+				if !c.star || c.distinct {
+					panic(pathAbort{"unsupported", "sql: COUNT(expr) without GROUP BY: " + src})
+				}
 				return [][]sqlVal{{{v: w.TF.Const(64, uint64(len(sel)))}}}, 0, nil
 			}
 		}
